@@ -1,6 +1,7 @@
 package props
 
 import (
+	"encoding/base64"
 	"fmt"
 	"net/url"
 	"strings"
@@ -156,7 +157,13 @@ func (e *Eng) actDevicePoll() {
 		reasons = append(reasons, "unspecified")
 	}
 	form := url.Values{"grant_type": {deviceGrant}, "device_code": {d.Val}}
-	tr := e.w.Token(e.form(presenter, form), e.auth(presenter), h.TokenOpts{})
+	reqForm, auth := e.form(presenter, form), e.auth(presenter)
+	if presenter == "P" && presenter != g.Client && rapid.Bool().Draw(t, "publicViaBasicNamingVictimInBody") {
+		auth = h.Auth{RawHeader: "Basic " + base64.StdEncoding.EncodeToString([]byte("P:"))}
+		reqForm.Set("client_id", g.Client)
+		e.label("poll-public-basic-with-victim-client_id")
+	}
+	tr := e.w.Token(reqForm, auth, h.TokenOpts{})
 	e.step("devicePoll:" + strings.Join(reasons, "+"))
 	e.logf("devicePoll %v by=%s reasons=%v -> %v", d, presenter, reasons, tr.Err)
 	has := func(x string) bool {
@@ -224,7 +231,8 @@ func (e *Eng) actDevicePoll() {
 	}
 	if has("used") {
 		e.label("device-replay")
-		if e.w.Tx != nil && (len(reasons) == 1) {
+		onlyUsedAndExpired := len(reasons) == 1 || (len(reasons) == 2 && has("expired"))
+		if e.w.Tx != nil && onlyUsedAndExpired {
 			// the contract-following store reports the code as already used: its tokens are revoked
 			e.killFamily(g, "C16/replay-did-not-revoke-tokens")
 		} else {
@@ -325,7 +333,7 @@ func (e *Eng) actPARUse() {
 	}
 	if rapid.IntRange(0, 7).Draw(t, "unknownURI") == 0 {
 		// a request_uri nobody pushed: same prefix with an unknown or mutated reference, or a foreign prefix
-		kind := rapid.SampledFrom([]string{"unknown-reference", "mutated", "foreign-prefix", "prefix-only"}).Draw(t, "unknownKind")
+		kind := rapid.SampledFrom([]string{"unknown-reference", "mutated", "foreign-prefix", "prefix-only", "foreign-prefix-plus-plain-parameters", "foreign-prefix-plus-plain-parameters"}).Draw(t, "unknownKind")
 		prefix := e.w.Cfg.PushedAuthorizeRequestURIPrefix
 		if prefix == "" {
 			prefix = "urn:ietf:params:oauth:request_uri:"
@@ -339,11 +347,28 @@ func (e *Eng) actPARUse() {
 		case "prefix-only":
 			uri = prefix
 		}
-		res := e.w.Authorize(url.Values{"client_id": {p.G.Client}, "request_uri": {uri}}, h.Consent{Session: e.w.Sess("user-x")})
+		uq := url.Values{"client_id": {p.G.Client}, "request_uri": {uri}}
+		if kind == "foreign-prefix-plus-plain-parameters" {
+			// a complete plain authorization request that merely carries some request_uri without the PAR prefix
+			uri = rapid.SampledFrom([]string{"https://rp.example/request.jwt", "urn:example:other:abc", "urn:ietf:params:oauth:request_uri:" + "AAAAAAAAAAAAAAAAAAAAAAAAAAAAAAAAAAAAAAAAAAA"}).Draw(t, "foreignURI")
+			if strings.HasPrefix(uri, prefix) {
+				uri = "urn:example:other:abc"
+			}
+			uq = url.Values{"client_id": {p.G.Client}, "request_uri": {uri}, "response_type": {"code"}, "state": {"state-0123456789"}, "redirect_uri": {redirectURI}, "scope": {"a"}}
+			if !e.w.Cfg.IsPushedAuthorizeEnforced {
+				// without enforcement this is an ordinary authorization request: nothing to assert
+				e.step("parUse:" + kind + ":not-enforced")
+				return
+			}
+		}
+		res := e.w.Authorize(uq, h.Consent{Session: e.w.Sess("user-x")})
 		e.step("parUse:" + kind)
 		e.label("par-use-" + kind)
 		e.logf("parUse unknown uri kind=%s -> %v code=%v", kind, res.Err, res.Code != "")
 		if res.Code != "" || res.Access != "" || res.IDToken != "" {
+			if kind == "foreign-prefix-plus-plain-parameters" {
+				e.viol("C17/enforcement-ignored", "pushed authorization requests are enforced, but a plain authorization request carrying the non-PAR request_uri %q was accepted", uri)
+			}
 			e.viol("C17/unknown-request-uri-honoured", "an authorization was started with the never-pushed request_uri %q (%s)", uri, kind)
 		}
 		return
